@@ -124,6 +124,19 @@ func genELF(t *rapid.T) *elfCase {
 		}
 	}
 	c.Target = xs[rapid.IntRange(0, len(xs)-1).Draw(t, "target")]
+	if rapid.IntRange(0, 3).Draw(t, "datatarget") == 0 {
+		// the mapping of a segment that is not executable at link time (made executable at run time, or sampled
+		// by a data profiler): same translation rule, and the tail of its last file page may be bss
+		var ds []int
+		for i, s := range c.Segs {
+			if s.Flags&1 == 0 && s.Filesz > 0 {
+				ds = append(ds, i)
+			}
+		}
+		if len(ds) > 0 {
+			c.Target = ds[rapid.IntRange(0, len(ds)-1).Draw(t, "datatargetidx")]
+		}
+	}
 	if c.Dyn {
 		c.Bias = uint64(rapid.SampledFrom([]int{0, 0x1000, 0x555555554000, 0x7f0000000000, 0x10000000}).Draw(t, "bias"))
 		if huge {
@@ -214,6 +227,11 @@ func checkELF(c *elfCase, o *vk.Obs) []string {
 	tg := c.Segs[c.Target]
 	// addresses that really belong to the target segment and lie inside the mapping
 	lo, hi := c.Bias+tg.Vaddr, c.Bias+tg.Vaddr+tg.Filesz
+	if tg.Flags&1 == 0 && tg.Memsz > tg.Filesz {
+		// the rest of the last file-backed page holds the start of the bss
+		hi = c.Bias + min(pageup(tg.Vaddr+tg.Filesz), tg.Vaddr+tg.Memsz)
+	}
+	o.LabelIf(tg.Flags&1 == 0, "non-executable-segment")
 	if lo < start {
 		lo = start
 	}
@@ -508,6 +526,15 @@ type legacyCase struct {
 func genLegacy(t *rapid.T) *legacyCase {
 	e := genELF(t)
 	e.Whole, e.SplitLo = false, 0
+	if e.Segs[e.Target].Flags&1 == 0 {
+		// a legacy memory map only lists executable mappings: samples are taken in code
+		for i, s := range e.Segs {
+			if s.Flags&1 != 0 {
+				e.Target = i
+				break
+			}
+		}
+	}
 	return &legacyCase{E: e, Stray: rapid.IntRange(0, 2).Draw(t, "stray") == 0}
 }
 
